@@ -75,7 +75,7 @@ def run(ctx):
     open(cfg, "w").write("cfg errormode prefix\n")
     rc, out = sh("cat %s %s %s | %s" % (cfg, ops, cout, driver), timeout=3000)
     langs = trees = tree_ok = tree_err = 0
-    model_ok = model_skip = model_bad = model_shapevars = model_inlined = 0
+    model_ok = model_skip = model_bad = model_shapevars = model_inlined = act_cells = spurious = 0
     corr_cmp = corr_bad = judge_eval = judge_bad = 0
     distinct = set()
     samples = []
@@ -91,7 +91,7 @@ def run(ctx):
             langs += 1
             tot["states"] += int(kv.get("states", 0))
             tot["listed"] += int(kv.get("listed", 0))
-            for k in ("tablewf", "corr_la", "corr_lookup", "corr_names"):
+            for k in ("tablewf", "corr_la", "corr_lookup", "corr_names", "corr_symtype"):
                 corr_cmp += 1
                 if kv.get(k) != "ok":
                     corr_bad += 1
@@ -102,6 +102,8 @@ def run(ctx):
                 corr_bad += 1
                 ctx.violation("corr", "node-types.json of %s unreadable or not saturating: %s" % (lid, kv.get("ntwf")),
                               {"case": cid, "spec": spec, "result": kv}, fingerprint={"lang": lid, "corr": "ntwf"}, found_input=False)
+            act_cells += int(kv.get("actcells", "0") or 0)
+            spurious += int(kv.get("spurious_entries", "0") or 0)
             mc = kv.get("model_closed", "")
             if mc.startswith("ok"):
                 model_ok += 1
@@ -118,7 +120,7 @@ def run(ctx):
                 ctx.violation("judge", "the real node-types.json is not closed under the productions of grammar %s: rule %s, production %s "
                               "(a derivable child kind / field / required / multiple flag is not admitted)" % (lid, kv.get("var"), kv.get("prod")),
                               {"case": cid, "spec": spec, "result": kv}, fingerprint=fp)
-            for k in ("judge_la", "judge_names", "judge_sup"):
+            for k in ("judge_la", "judge_names", "judge_sup", "judge_acts", "judge_listed"):
                 judge_eval += 1
                 if kv.get(k) != "ok":
                     judge_bad += 1
@@ -180,6 +182,8 @@ def run(ctx):
                 "or a child allowed only through a supertype; distinct by hash of (grammar, document)",
         "samples": samples, "languages": langs, "trees_judged": trees, "trees_conforming": tree_ok, "trees_with_errors_skipped": tree_err,
         "grammars_rejected_or_skipped": skips[:10], "random_grammar_features": feat_hist, "document_tokens": sizes, "totals": tot,
+        "driver_table_cells_agreeing_with_raw_layout": act_cells,
+        "node_types_entries_no_symbol_carries(informational)": spurious,
         "model_closed": {"rules_with_productions_compared_to_real_reduce_actions": model_shapevars, "grammars_with_inlined_rules": model_inlined, "closed": model_ok, "out_of_scope": model_skip, "not_closed_unexpected": model_bad},
         "correspondence": {"compared": corr_cmp, "equal": corr_cmp - corr_bad},
         "judge": {"evaluated": judge_eval, "passed": judge_eval - judge_bad},
